@@ -28,6 +28,8 @@ type GenCfg struct {
 	NoRecords    bool
 	NoMedia      bool
 	NoEdgeNode   bool
+	OnlyEdges    bool
+	OnlyNodes    bool
 	NoChunked    bool
 	NoNestedMark bool // no markers inside a marked container (D19)
 	AsciiOnly    bool
@@ -35,6 +37,13 @@ type GenCfg struct {
 	NoNilBig     bool
 	NoBoolEv     bool // use t/f only (CTE cannot distinguish)
 	NoMidCharSplit bool
+	NoBitArrays  bool
+	NoArrayNaN   bool // float arrays hold no NaN elements
+	NoUIDArrays  bool
+	UrlRids      bool // resource IDs are well-formed URLs (the builder parses them with net/url)
+	NoRemoteRef  bool
+	NoCustom     bool
+	NoRefs       bool // markers but no references
 	MarkerHeavy  bool // more markers and references, also in key positions
 }
 
@@ -165,7 +174,7 @@ func (g *Gen) value(depth int, ctx vctx) {
 	if g.c.MarkerHeavy {
 		refDen, mkDen = 5, 4
 	}
-	if !g.c.NoMarkers && g.r.P(1, refDen) {
+	if !g.c.NoMarkers && !g.c.NoRefs && g.r.P(1, refDen) {
 		if len(g.markerOrder) > 0 && g.r.P(2, 3) {
 			id := g.markerOrder[g.r.Intn(len(g.markerOrder))]
 			g.emit(Event{K: "ref", D: []byte(id)})
@@ -262,14 +271,17 @@ func (g *Gen) plainValue(depth int, ctx vctx, marked bool) bool {
 		case k == 15:
 			switch g.r.Intn(4) {
 			case 0:
-				if marked {
+				if marked || g.c.NoRemoteRef {
 					continue // remote references are not markable
 				}
 				g.stringValue(events.ArrayTypeReferenceRemote)
 			case 1:
+				if g.c.NoCustom {
+					continue
+				}
 				g.customBinary()
 			case 2:
-				if g.c.NoCustomText {
+				if g.c.NoCustomText || g.c.NoCustom {
 					continue
 				}
 				g.customText()
@@ -299,13 +311,13 @@ func (g *Gen) plainValue(depth int, ctx vctx, marked bool) bool {
 			g.record(depth)
 			return false
 		case k == 22:
-			if !canNest || g.c.NoEdgeNode {
+			if !canNest || g.c.NoEdgeNode || g.c.OnlyNodes {
 				continue
 			}
 			g.edge(depth)
 			return false
 		case k == 23:
-			if !canNest || g.c.NoEdgeNode {
+			if !canNest || g.c.NoEdgeNode || g.c.OnlyEdges {
 				continue
 			}
 			g.node(depth)
@@ -414,7 +426,7 @@ func (g *Gen) key(used map[string]bool, allowRef bool) {
 			g.emit(Event{K: "mk", D: []byte(markedKey)})
 		}
 		switch {
-		case k == 0 && allowRef && !g.c.NoMarkers:
+		case k == 0 && allowRef && !g.c.NoMarkers && !g.c.NoRefs:
 			// reference to a keyable marker
 			var cands []string
 			for _, id := range g.markerOrder {
@@ -445,6 +457,9 @@ func (g *Gen) key(used map[string]bool, allowRef bool) {
 			canon = g.out[len(g.out)-1].keyCanon()
 		case k == 7:
 			txt := g.text(1 + g.r.Intn(8))
+			if g.c.UrlRids {
+				txt = []byte(urlPool[g.r.Intn(len(urlPool))])
+			}
 			canon = "rid:" + string(txt)
 			g.stringOf(events.ArrayTypeResourceID, txt)
 		default:
@@ -809,7 +824,13 @@ func (g *Gen) textLen() int {
 	}
 }
 
+var urlPool = []string{"http://x.com", "https://example.org/a/b?c=d#e", "urn:isbn:0451450523", "mailto:a@b.c", "file:///tmp/x", "a", "x/y", "http://x.com/%C3%A9"}
+
 func (g *Gen) stringValue(t events.ArrayType) {
+	if g.c.UrlRids && t == events.ArrayTypeResourceID {
+		g.stringOf(t, []byte(urlPool[g.r.Intn(len(urlPool))]))
+		return
+	}
 	n := g.textLen()
 	if t != events.ArrayTypeString && n == 0 {
 		n = 1
@@ -914,6 +935,9 @@ func (g *Gen) arrayCount() int {
 
 func (g *Gen) typedArray() {
 	t := numericArrayTypes[g.r.Intn(len(numericArrayTypes))]
+	for (g.c.NoBitArrays && t == events.ArrayTypeBit) || (g.c.NoUIDArrays && t == events.ArrayTypeUID) {
+		t = numericArrayTypes[g.r.Intn(len(numericArrayTypes))]
+	}
 	n := g.arrayCount()
 	if t == events.ArrayTypeBit {
 		g.bitArray(n)
@@ -921,6 +945,9 @@ func (g *Gen) typedArray() {
 	}
 	eb := t.ElementSize() / 8
 	data := g.r.Bytes(n * eb)
+	if g.c.NoArrayNaN {
+		sanitizeFloatArray(t, data)
+	}
 	if g.c.NoChunked || g.r.P(1, 2) {
 		g.emit(Event{K: "a", AT: t, N: uint64(n), D: data})
 		return
@@ -1011,4 +1038,22 @@ func (g *Gen) media() {
 	}
 	g.emit(Event{K: "mb", D2: []byte(mt)})
 	g.chunks(d, 8, nil)
+}
+
+// sanitizeFloatArray clears the top exponent bit of every element so that none is NaN or Inf.
+func sanitizeFloatArray(t events.ArrayType, data []byte) {
+	var eb int
+	switch t {
+	case events.ArrayTypeFloat16:
+		eb = 2
+	case events.ArrayTypeFloat32:
+		eb = 4
+	case events.ArrayTypeFloat64:
+		eb = 8
+	default:
+		return
+	}
+	for i := eb - 1; i < len(data); i += eb {
+		data[i] &^= 0x40
+	}
 }
